@@ -1,6 +1,7 @@
 package db
 
 import (
+	"bytes"
 	"github.com/tailscale/setec/acl"
 	"github.com/tailscale/setec/audit"
 	"github.com/tailscale/setec/types/api"
@@ -36,7 +37,10 @@ func verifAuditObserveSave() {
 	assert("save-after-sealed-record", and(len(s.writes) >= 1, s.synced == len(s.writes)))
 }
 
-func verifEntryMatches(rec []byte, caller Caller, action acl.Action, name string, ver api.SecretVersion, authorized bool) bool {
+// The record names the version "where one was given" (C06): for operations whose caller names no version (get,
+// conditional get, info, put, delete) the version field is not constrained (verGiven=false) — a record that
+// volunteers the version actually served is still a complete record.
+func verifEntryMatches(rec []byte, caller Caller, action acl.Action, name string, ver api.SecretVersion, verGiven bool, authorized bool) bool {
 	var e audit.Entry
 	if !jsonBlobAs(rec, &e) {
 		return false
@@ -45,7 +49,7 @@ func verifEntryMatches(rec []byte, caller Caller, action acl.Action, name string
 	if jsonBlobKeys(rec) != "action,authorized,id,principal,secret,secretVersion,time" && jsonBlobKeys(rec) != verifAuditKeysNative(rec) {
 		return false
 	}
-	return and(deepEq(e.Principal, caller.Principal), e.Action == action, e.Secret == name, e.SecretVersion == ver, e.Authorized == authorized)
+	return and(deepEq(e.Principal, caller.Principal), e.Action == action, e.Secret == name, or(!verGiven, e.SecretVersion == ver), e.Authorized == authorized)
 }
 
 func verifC06Run(op int) {
@@ -85,14 +89,14 @@ func verifC06Run(op int) {
 	if !a {
 		if res.wellForm {
 			assert("denial-logged-once", and(len(sink.writes) == 1, sink.synced == 1))
-			assert("denial-record", verifEntryMatches(sink.writes[0], caller, res.required, name, 0*ver+verifDenialVer(op, ver), false))
+			assert("denial-record", verifEntryMatches(sink.writes[0], caller, res.required, name, ver, verifVerGiven(op), false))
 		}
 		reach("end-denied")
 		return
 	}
 	if len(sink.writes) > 0 {
 		assert("at-most-one-record", len(sink.writes) == 1)
-		assert("record-content", verifEntryMatches(sink.writes[0], caller, res.required, name, res.logVer, true))
+		assert("record-content", verifEntryMatches(sink.writes[0], caller, res.required, name, ver, verifVerGiven(op), true))
 		reach("end-logged")
 		return
 	}
@@ -109,13 +113,13 @@ func verifC06Run(op int) {
 	reach("end-silent")
 }
 
-// GetConditional's denial record carries version 0 (the code logs the default version); others carry their argument.
-func verifDenialVer(op int, ver api.SecretVersion) api.SecretVersion {
+// the operations whose caller names a version (a conditional get's V is a comparison value, not the version asked for)
+func verifVerGiven(op int) bool {
 	switch op {
 	case opGetVersion, opActivate, opDeleteVersion:
-		return ver
+		return true
 	}
-	return 0
+	return false
 }
 
 func verifHarnessC06Info()           { verifC06Run(opInfo) }
@@ -167,7 +171,7 @@ func verifHarnessC06List() {
 	}
 	assert("ok", err == nil)
 	assert("one-record", and(len(sink.writes) == 1, sink.synced == 1))
-	assert("record", verifEntryMatches(sink.writes[0], caller, acl.ActionInfo, "", 0, true))
+	assert("record", verifEntryMatches(sink.writes[0], caller, acl.ActionInfo, "", 0, false, true))
 	reach("end")
 }
 
@@ -182,12 +186,102 @@ func verifHarnessC06WriteEntries() {
 	sf := ghostCount("sink.sync.failed") > 0
 	assert("error-iff-fault", (err != nil) == (wf || sf))
 	if err == nil {
-		assert("both-written-and-synced", and(len(sink.writes) == 2, sink.synced == 2))
+		// both records reached the sink, in order, and everything written is synced (one Write per record or one per batch)
+		recs := verifRecordsOf(sink.writes)
+		assert("both-written-and-synced", and(len(recs) == 2, sink.synced == len(sink.writes)))
+		if len(recs) == 2 {
+			var r1, r2 audit.Entry
+			assert("records-complete-and-in-order", and(jsonBlobAs(recs[0], &r1), jsonBlobAs(recs[1], &r2), r1.Secret == "a", r2.Secret == "b"))
+		}
 	}
 	if wf {
 		assert("stops-at-first-write-error", ghostCount("sink.write") <= 1)
 	}
 	reach("end")
+}
+
+// Records of concurrent requests are never interleaved, truncated or lost: another goroutine's WriteEntries runs to
+// completion while the sink is still copying the first record (the bytes handed to Write must stay the caller's own
+// until Write returns).
+type verifBusySink struct {
+	w      *audit.Writer
+	second *audit.Entry
+	nested bool
+	err2   error
+	writes [][]byte
+}
+
+func (s *verifBusySink) Write(p []byte) (int, error) {
+	if !s.nested {
+		s.nested = true
+		concurrently(func() { s.err2 = s.w.WriteEntries(s.second) })
+	}
+	s.writes = append(s.writes, append([]byte(nil), p...)) // the copy into the file happens only now
+	return len(p), nil
+}
+
+func (s *verifBusySink) Sync() error { return nil }
+
+func verifHarnessC06ConcurrentWriters() {
+	sink := &verifBusySink{}
+	w := audit.New(sink)
+	sink.w = w
+	e1 := &audit.Entry{Secret: nondetString("secret1"), Action: acl.ActionGet, Authorized: nondetBool("auth1")}
+	e2 := &audit.Entry{Secret: nondetString("secret2"), Action: acl.ActionPut, Authorized: nondetBool("auth2")}
+	assume(e1.Secret != e2.Secret)
+	sink.second = e2
+	err1 := w.WriteEntries(e1)
+	joinConcurrent()
+	assert("both-calls-succeed", and(err1 == nil, sink.err2 == nil))
+	got1, got2, other := 0, 0, 0
+	for _, rec := range sink.writes {
+		var e audit.Entry
+		if !jsonBlobAs(rec, &e) {
+			other++
+			continue
+		}
+		switch {
+		case and(e.Secret == e1.Secret, e.Action == acl.ActionGet, e.Authorized == e1.Authorized):
+			got1++
+		case and(e.Secret == e2.Secret, e.Action == acl.ActionPut, e.Authorized == e2.Authorized):
+			got2++
+		default:
+			other++
+		}
+	}
+	assert("first-callers-record-arrives-intact-exactly-once", got1 == 1)
+	assert("second-callers-record-arrives-intact-exactly-once", got2 == 1)
+	assert("nothing-else-reaches-the-log", other == 0)
+	reach("end")
+}
+
+// verifRecordsOf: the records contained in a sequence of sink writes (a write may carry a batch of lines).
+func verifRecordsOf(writes [][]byte) [][]byte {
+	var out [][]byte
+	for _, w := range writes {
+		out = append(out, verifSplitBatch(w, 3)...)
+	}
+	return out
+}
+
+func verifSplitBatch(w []byte, depth int) [][]byte {
+	if symbolic() {
+		if parts, ok := blobOpen(w, "CAT"); ok && depth > 0 {
+			var out [][]byte
+			for _, p := range parts {
+				out = append(out, verifSplitBatch(blobPartBytes(p), depth-1)...)
+			}
+			return out
+		}
+		return [][]byte{w}
+	}
+	var out [][]byte
+	for _, line := range bytes.SplitAfter(w, []byte("\n")) {
+		if len(line) > 0 {
+			out = append(out, line)
+		}
+	}
+	return out
 }
 
 // natively omitempty drops empty fields, so the key set is a subset of the documented one
